@@ -33,6 +33,8 @@ MUTANTS = [
     ("rmm-norecalc", N, "            if group_full and need_recalc:\n", "            if group_full and need_recalc and val_is_null:\n", None, "_rolling_max_or_min_1d[float,chunked,mask=None,max", "stale extremum survives the eviction of its row"),
     ("rmm-nodec", N, "                if not is_null(to_remove):\n                    group_non_null[key] -= 1\n\n            group_buffers[key, pos] = val\n            # Add new value", "                pass\n\n            group_buffers[key, pos] = val\n            # Add new value", None, "_rolling_max_or_min_1d[float,chunked,mask=None,min", "non-null counter never decremented"),
     ("shift-order", N, "            group_buffers[key, pos] = val\n            # Update position\n            group_buffer_pos[key] = (pos + 1) % window", "            group_buffers[key, pos] = val\n            # Update position\n            group_buffer_pos[key] = (pos + 2) % window", None, "_rolling_shift_or_diff_1d", "buffer position skips a slot"),
+    ("diff-sign", N, "out[i] = val - group_buffers[key, pos]", "out[i] = group_buffers[key, pos] - val", None, "_rolling_shift_or_diff_1d[int", "difference reversed"),
+    ("shift-empty", N, "    group_buffers = np.full((ngroups, window), null_value)\n", "    group_buffers = np.empty((ngroups, window))\n", 2, "_rolling_shift_or_diff_1d[opaque,chunked,mask=None", "buffers of another element type (float64 detour loses nanoseconds)"),
     ("wcs-last", FZ, "    if codes[-1] == -1:\n        return -1\n", "", None, "_weight_code_sum", "null in the last key not propagated"),
     ("mono-nan", FZ, "        if not x >= prev:\n", "        if x < prev:\n", None, "_monotonic_factorization[float", "a NaN inside a sorted run inherits its predecessor's code"),
     ("mono-emptychunk", FZ, "        while cur_arr_pos == len(arr):\n", "        if cur_arr_pos == len(arr):\n", None, "_monotonic_factorization", "an empty chunk is read out of bounds"),
@@ -102,9 +104,10 @@ def main():
     fails = []; rows = []
     tmp = tempfile.mkdtemp(prefix="pyvc_selftest_")
     try:
+        want = [a for a in sys.argv[1:] if a != "selftest"]            # optional: only the named mutants
         for m in MUTANTS:
             mid, file, old, new, occ, func, what = m
-            if old is None: continue
+            if old is None or (want and mid not in want): continue
             shutil.rmtree(os.path.join(tmp, "groupby_lib"), ignore_errors=True)
             shutil.copytree(os.path.join(REPO, "groupby_lib"), os.path.join(tmp, "groupby_lib"), ignore=shutil.ignore_patterns("__pycache__", "*.nbi", "*.nbc"))
             skip = apply_mutant(tmp, m)
